@@ -210,6 +210,13 @@ pub fn eval_c01(case: &J) -> Outcome {
                 // C = σ / (largest noise multiplier recorded in the returned event): the smallest C the accounting can be claiming
                 let fallback = || -> Option<f64> { let ms: Vec<f64> = crate::s_dp::gaussians(dp.dp_event()); let m = ms.iter().cloned().fold(0.0, f64::max); if m > 0.0 && *sigma > 0.0 { Some(*sigma / m) } else { None } };
                 let c = match c { Some(c) => *c, None => match fallback() { Some(c) => { out.tag("clip-constant-from-event"); c } None => { out.fail("C01/exec/clip-constant-not-found", format!("{sql}: the noised column `{cname}` (σ = {sigma}) has no recognisable clipping constant and the event records no multiplier for it")); continue } } };
+                // the bound the property speaks of is the one σ was scaled by: when every mechanism of the event has the same multiplier m
+                // (one aggregation, budget split evenly) that bound is σ / m, and the constant in the clipping expression must not exceed it
+                let ms: Vec<f64> = crate::s_dp::gaussians(dp.dp_event());
+                let c = if let (Some(m0_), true) = (ms.first().cloned(), !ms.is_empty() && ms.iter().all(|m| (m - ms[0]).abs() <= 1e-9 * ms[0].abs()) && *sigma > 0.0) {
+                    let cal = *sigma / m0_;
+                    if c > cal * (1.0 + 1e-6) + 1e-9 { out.tag("clip-constant-above-calibrated-bound"); cal } else { c }
+                } else { c };
                 let c = &c;
                 let ci = names.iter().position(|n| n == cname).unwrap();
                 let mut d2 = 0.0;
